@@ -29,6 +29,7 @@ int main(int argc, char **argv) {
   const bool build = !strcmp(argv[2], "build");
   const bool fromFile = !strcmp(argv[2], "keyfile");
   occa::device dev(std::string("{mode: '") + argv[1] + "'}");
+  printf("MODE %s\n", dev.mode().c_str());     // occa falls back to Serial when the requested mode is not compiled in
   for (int a = 3, n = 0; a + 1 < argc; a += 2, ++n) {
     const std::string src = slurp(argv[a + 1]);
     try {
